@@ -171,11 +171,16 @@ def hyp_run(ctx, strategy, body, max_examples, shrink_calls=None, salt=0):
         shrink_calls = 300 if ctx.tier == "quick" else 1500
     st = {"best": None, "after": 0}
 
+    trace_dir = os.environ.get("VERIF_TRACE_DIR")
+
     def wrapped(case):
         if st["best"] is not None:
             st["after"] += 1
             if st["after"] > shrink_calls:
                 fail("shrink budget exhausted")
+        if trace_dir:      # debugging aid for hangs: the case in flight is on disk
+            with open(os.path.join(trace_dir, "%s-%d.json" % (ctx.kind, os.getpid())), "w") as f:
+                json.dump({"t": time.time(), "case": jsonable(case)}, f)
         try:
             res = guarded(body, case)
         except Violation as v:
